@@ -17,6 +17,7 @@ type runCfg struct {
 	L       lockerCfg `json:"locker"`
 	NT      int       `json:"threads"`
 	Ordered bool      `json:"ordered"`
+	Long    bool      `json:"long,omitempty"` // generator class long-lists (longlists.go)
 }
 
 type replayT struct {
@@ -213,6 +214,9 @@ func liveAfter(rounds []roundT) int {
 }
 
 func classOf(c runCfg) string {
+	if c.Long {
+		return c.L.class() + "/long-lists"
+	}
 	if c.Ordered {
 		return c.L.class() + "/ordered"
 	}
@@ -262,6 +266,15 @@ func main() {
 			rounds += len(rs)
 			polls += lastPolls
 		}
+		// long multi-key lists on the sharded generic lockers (after the random walk: its random stream is unchanged)
+		nl := e.Scale(50, 200)
+		if e.Search && strings.HasSuffix(e.Focus, "/long-lists") {
+			nl = 600
+		}
+		lr, lm, ld := runLongLists(e, nl)
+		rounds += lr
+		mismatches += lm
+		deadlocked += ld
 		e.Meta["deadlocked_runs"] = deadlocked
 		e.Meta["rounds"] = rounds
 		e.Meta["stack_snapshots"] = polls
